@@ -26,6 +26,13 @@ def main(tier):
     rng.size_normalisation(P, rep, grains_funcs)
     rng.broadcast_single_value(P, rep)
     quat.quaternion_blend(P, rep)      # orientations blended between two sections stay proper rotations
+    # the grains block that reaches the caller is the one the models wrote: producer, walker and the 2D wrapper agree on its width
+    from ..rules import layout as _layout
+
+    def _grains_block(P, rep):
+        tables, outv, counter = _layout.width_tables(P, rep)
+        _layout.wrapper2d(P, rep, counter)
+    rep.attempt(_grains_block, P, rep)
     rep.explanation = ("Entropy discipline over the whole library (banned sources, every draw on the world's engine, engine "
                        "written only at construction and by the file's seed entry), effect analysis (the RNG draw is the only "
                        "state a query touches), index agreement of per-composition tables, size normalisation shape; computer-algebra "
